@@ -7,7 +7,7 @@ import tprog, gen_dag, gen_ops
 tprog.ENTRIES = True        # function / Tensor method / operator / nn layer class
 tprog.SPELLINGS = True
 tprog.LAYOUTS = True      # leaves are handed over in C / Fortran / strided / negative-stride / offset / transposed layouts
-import formulas, formula_cases
+import formulas, formula_cases, array_formulas
 
 PROP = 'C01'
 LEAN_TARGETS = ['Props.C01']
@@ -19,7 +19,11 @@ RULE = ('per op of the tensor API: operand shapes of rank 0-4 with sizes 1-3 (ev
         '(dimension,size,step), integer and fractional exponents on their domains), non-uniform upstream gradients, mixed '
         'requires_grad; ~8 % malformed arguments for the accept/reject boundary. Compared: accept/reject, value, every operand '
         'gradient (shape and data), gradient dtype flags. Non-trivial: accepted, differentiable operand, result with > 1 element '
-        'or a broadcast / reduction.')
+        'or a broadcast / reduction. ACCUMULATION: the second sweep through every graph finds each differentiable operand zeroed, frozen, or '
+        'still HOLDING the first sweep\'s gradient (the op has to add to it); every op also as a node of a backward history (builder and '
+        'oracle of C03: the operand — a leaf or an interior tensor — has other consumers created before or after the op, among them the same op '
+        'applied again with other arguments; 1-3 roots summed in shuffled orders, 2-4 backward calls, leaves zeroed in between or left to '
+        'accumulate), every leaf gradient compared after every call.')
 EXHAUSTIVE = {'quick': False, 'thorough': False}
 ASSUMPTIONS = ['float64 operands; NumPy reduction order differs from the model fold by rounding only (rel 1e-9)',
                'ties of max/min: the first arg-max (NumPy) is the subgradient both sides select; any other valid subgradient of '
@@ -46,39 +50,58 @@ def finish(c, rng):
     else:
         outs = io[-1].split(',')
         shp = tprog.run_program(c['prog'] + [f't val {nl + k}' for k in range(len(outs))])[-len(outs):]
-        lines = list(c['prog']) + [f't val {nl + k}' for k in range(len(outs))]
         c['gs'] = []
         for k, s in enumerate(shp):
             sh = tuple(common.parse_ints(s.split('|')[0])) if '|' in s else ()
             g = gen_dag.rand_data(rng, sh, -2, 2)
             c['gs'].append((sh, g))
-            lines.append(f"t bw {nl + k} {show_ints(sh)} {show_floats(g)}")
-        lines += [f't grad {k}' for k in range(nl)]
-        # a second sweep through the same graph after zeroing the leaves must reproduce the gradients: whatever the op saved for
-        # its backward (operands, outputs, masks, statistics) has to survive the first sweep
-        # before the second sweep every differentiable leaf is either zeroed or FROZEN (requires_grad switched off, its gradient
-        # kept): a frozen operand is outside the graph being differentiated and its stale gradient must not move
+        # a second sweep through the same graph must reproduce the gradients: whatever the op saved for its backward (operands,
+        # outputs, masks, statistics) has to survive the first sweep. Before it every differentiable leaf is either zeroed, or FROZEN
+        # (requires_grad switched off, its gradient kept: a frozen operand is outside the graph being differentiated and its stale
+        # gradient must not move), or left as it is: the second sweep then has to ADD to what the buffer holds
+        c['sweep2'] = {}
         for k in range(nl):
             if len(c['leaves'][k]) < 3 or c['leaves'][k][2]:
-                lines.append(f't zero {k}' if rng.chance(.65) else f't setrg {k} 0')
-        lines += [f"t bw {nl + k} {show_ints(sh)} {show_floats(g)}" for k, (sh, g) in enumerate(c['gs'])]
-        lines += [f't grad {k}' for k in range(nl)]
-        c['lines'] = lines
+                r = rng.random()
+                c['sweep2'][k] = 'zero' if r < .5 else 'freeze' if r < .72 else 'keep'
+        c['lines'] = sweep_lines(c)
         c['nout'] = len(outs)
     c['desc'] = ' ; '.join(c['lines'])[:700]
     return c
 
 
+def sweep_lines(c):
+    nl = len(c['leaves'])
+    lines = list(c['prog']) + [f't val {nl + k}' for k in range(len(c['gs']))]
+    bw = [f"t bw {nl + k} {show_ints(sh)} {show_floats(g)}" for k, (sh, g) in enumerate(c['gs'])]
+    lines += bw + [f't grad {k}' for k in range(nl)]
+    if c.get('sweep2') is not None:
+        for k in range(nl):
+            how = c['sweep2'].get(k, c['sweep2'].get(str(k)))
+            if how in ('zero', 'freeze'):
+                lines.append(f't zero {k}' if how == 'zero' else f't setrg {k} 0')
+        lines += bw + [f't grad {k}' for k in range(nl)]
+    return lines
+
+
+def kept(c, k):
+    """1 + the number of earlier sweeps whose gradient operand k still holds when the last sweep adds its own"""
+    s2 = c.get('sweep2') or {}
+    return 2 if s2.get(k, s2.get(str(k))) == 'keep' else 1
+
+
 FORMULA_THEOREMS = ['src_add_left_vjp', 'src_add_right_vjp', 'src_mul_left_vjp', 'src_mul_right_vjp', 'src_neg_vjp', 'src_clone_vjp', 'src_pow_vjp',
                     'src_rpow_vjp', 'src_exp_vjp', 'src_log_vjp', 'src_sqrt_vjp', 'model_applies_src_neg', 'model_applies_src_exp', 'model_applies_src_log',
-                    'model_applies_src_sqrt', 'model_applies_src_pow', 'model_applies_src_rpow', 'model_applies_src_add', 'model_applies_src_mul']
+                    'model_applies_src_sqrt', 'model_applies_src_pow', 'model_applies_src_rpow', 'model_applies_src_add', 'model_applies_src_mul',
+                    'src_calls_transpose', 'src_calls_movedim', 'src_calls_reshape', 'src_calls_squeeze_backward', 'src_calls_unsqueeze', 'src_calls_matmul',
+                    'src_calls_stack', 'src_calls_slice']
 REQUIRED_THEOREMS += ['Props.C01.' + t for t in FORMULA_THEOREMS]
 
 
 def extract():
-    """the arithmetic of the elementwise kernels is re-read from cpu_ops.py and re-emitted as Lean definitions (Generated/KernelFormulas.lean);
-    the src_* / model_applies_src_* theorems are re-checked against them by the build that follows"""
-    return formulas.write()[0]
+    """the arithmetic of the elementwise kernels (Generated/KernelFormulas.lean) and the NumPy calls of the array kernels (Generated/KernelCalls.lean)
+    are re-read from cpu_ops.py; the src_* / model_applies_src_* theorems are re-checked against them by the build that follows"""
+    return formulas.write()[0] + array_formulas.write()[0]
 
 
 def cases(rng, tier):
@@ -104,12 +127,25 @@ def cases(rng, tier):
             sh = rng.pick([(2, 3), (3,), (2, 1, 2)])
             corner = lambda r, o, m, sh=sh, keep=keep: ([(sh, gen_ops.vals(r, sh), True)], ['t:_', keep])
             out.append(finish(build(rng, op, False, gen=corner), rng))
+    # every op as a node of a backward HISTORY: its operand has other consumers (the same op again, with other arguments, among them),
+    # several roots are back-propagated one after another, gradients accumulate in the leaves (builder and oracle shared with C03)
+    from props import c03
+    for op in gen_ops.OPS_BASIC:
+        for _ in range((4 if op in ('unbind', 'slice', 'unfold_dim', 'concat', 'stack') else 2) if tier == 'quick' else 60):
+            c = c03.shared_case(rng, op)
+            if c:
+                c['order'] = c['P'].topo_shuffle(rng)
+                c.update({'op': op + '/history', 'nout': 1, 'malformed': False, 'leaves': [((), [0.0], True)], 'args': []})
+                out.append(c)
     return out
 
 
 def impl(c):
     if c.get('kind') == 'formula':
         return formula_cases.impl(c)
+    if c.get('kind') == 'hist':
+        from props import c03
+        return c03.impl(c)
     return tprog.run_program(c['lines'])
 
 
@@ -119,6 +155,9 @@ def _tie_ok(c, mo, io):
 
 
 def compare(c, mo, io):
+    if c.get('kind') == 'hist':
+        from props import c03
+        return c03.compare(c, mo, io)
     return tprog.diff_program(c['lines'], mo, io)
 
 
@@ -133,13 +172,26 @@ def distribution(cases):
         d[k] = d.get(k, 0) + 1
     d['malformed'] = sum(1 for c in cases if c['malformed'])
     d['enumerated: complete argument space of the reducing / shape ops on small operands'] = sum(1 for c in cases if c.get('enumerated'))
+    s2 = [h for c in cases for h in (c.get('sweep2') or {}).values()]
+    for h in ('zero', 'freeze', 'keep'):
+        d[f'second sweep: operand {h}'] = s2.count(h)
+    hist = [c for c in cases if c.get('kind') == 'hist']
+    if hist:
+        from props import c03
+        d.update({k: v for k, v in c03.distribution(hist).items() if k.startswith('histor')})
     return d
 
 
 # ---- oracle: finite differences of the implementation's own forward -------------------------------
-def oracle(c):
+def oracle(c, run=None, tol=5e-5):
+    """run: how the lines are executed to obtain the gradients under judgement (default: as they are)"""
     if c.get('kind') == 'formula':
         return None                     # the translation is what is compared there; `search` looks for a failing input of the property
+    if c.get('kind') == 'hist':
+        from props import c03
+        f = c03.oracle(c)
+        if f: f['case'] = dict(f['case'], kind='hist')
+        return f
     if c['nout'] == 0:
         return None
     P = gen_dag.Prog()
@@ -147,9 +199,9 @@ def oracle(c):
         P.add_leaf(lf[0], lf[1], lf[2], lf[3] if len(lf) > 3 else 'f64')
     nl = len(c['leaves'])
     P.add_op(c['op'], list(range(nl)), c['args'], [g[0] for g in c['gs']])
-    io = tprog.run_program(c['lines'])
+    io = (run or tprog.run_program)(c['lines'])
     key = {'op': c['op']}
-    cc = {k: v for k, v in c.items() if k in ('op', 'leaves', 'args', 'gs', 'malformed')}
+    cc = {k: v for k, v in c.items() if k in ('op', 'leaves', 'args', 'gs', 'malformed', 'sweep2', 'kind', 'level')}
     bw = [o for l, o in zip(c['lines'], io) if l.startswith('t bw')]
     if any(o == 'rejected' for o in bw):
         if any(lf[2] for lf in c['leaves']):
@@ -173,7 +225,7 @@ def oracle(c):
         dim = None if c['args'][0] == '~' else int(c['args'][0])
         ext = (x.max if c['op'] == 'max' else x.min)(axis=dim, keepdims=True)
         on = (x == ext)
-        G = np.array(c['gs'][0][1], dtype=np.float64).reshape(ext.shape)
+        G = np.array(c['gs'][0][1], dtype=np.float64).reshape(ext.shape) * kept(c, 0)
         gr = grads[0]
         if np.any(np.abs(gr[~on]) > 1e-12):
             return {'key': dict(key, cls='tie-off-support'), 'case': cc, 'what': f"{c['op']} at a tie: gradient {gr.ravel().tolist()} is non-zero off the arg-extremum positions"}
@@ -197,11 +249,12 @@ def oracle(c):
                 G = np.array(g, dtype=np.float64).reshape(sh)
                 tot += float(((c03._forward(P, v1, nl + k) - c03._forward(P, v2, nl + k)) * G).sum())
             acc[e] = tot / (2 * h)
+        acc *= kept(c, li)
         got = np.zeros(len(leaves[li])) if grads[li] is None else grads[li].ravel()
-        scale = max(1.0, float(np.abs(acc).max()), float(np.abs(got).max()))
-        if np.abs(got - acc).max() > 5e-5 * scale:
+        if c03.far_apart(got, acc, tol):
             return {'key': dict(key, cls='gradient'), 'case': cc,
-                    'what': f"{c['op']}{c['args']}: operand {li} received {got.tolist()}, finite differences give {acc.tolist()}"}
+                    'what': f"{c['op']}{c['args']}: operand {li} holds {got.tolist()} after {'two sweeps (the second one adding to the first)' if kept(c, li) == 2 else 'the sweep'}, "
+                            f"finite differences give {acc.tolist()}"}
     return None
 
 
@@ -215,14 +268,14 @@ def search(rng, tier):
 
 
 def _fix(c):
+    if c.get('kind') == 'hist':
+        from props import c03
+        d = c03._unstrip(c); d['kind'] = 'hist'
+        return d
     c['leaves'] = [tuple([tuple(lf[0])] + list(lf[1:])) for lf in c['leaves']]
     c['gs'] = [(tuple(s), g) for s, g in c.get('gs', [])]
     c['prog'] = gen_ops.program(c, None)
-    nl = len(c['leaves'])
-    lines = list(c['prog']) + [f't val {nl + k}' for k in range(len(c['gs']))]
-    for k, (sh, g) in enumerate(c['gs']):
-        lines.append(f"t bw {nl + k} {show_ints(sh)} {show_floats(g)}")
-    c['lines'] = lines + [f't grad {k}' for k in range(nl)]
+    c['lines'] = sweep_lines(c)
     c['nout'] = len(c['gs'])
     return c
 
